@@ -475,10 +475,20 @@ pub fn run(tier: Tier) -> i32 {
         let cfg = Config { max_wall: wall, ..Default::default() };
         rep.add(explore(name, h.config(), &h, &cfg));
     }
+    // the same first clause over the listeners and transports zlink ships (how a transport reports
+    // readiness decides who can win a turn): child process of the sockets binary
+    rep.require_goal("several-clients-with-calls-ready-before-the-server-looks");
+    rep.rule.push_str("; plus (child process `sockets c18-child`) Server::run over the listeners and transports of zlink-tokio and zlink-smol: 2..3 std clients whose bursts (1 call, 4 pipelined calls, a 350-byte call, mixed) are all in their sockets before the server looks; nobody is served twice before everybody was served once");
+    if let Err(code) = crate::common::child_phase_bin(&mut rep, "main", "sockets", "c18-child", tier, "real-listeners-and-transports/tokio+smol(child)") {
+        return code;
+    }
     rep.finish()
 }
 
 pub fn replay(v: &Value) -> Replayed {
+    if let Some(r) = crate::common::replay_child(v) {
+        return r;
+    }
     match Fairness::from_config(&v["harness"]) {
         Some(h) => replay_dfs(&h, v),
         None => Replayed::Error("cannot rebuild the fairness harness from the replay file".into()),
